@@ -33,7 +33,14 @@ RULE = (
     "(built by add() calls) x every mutator instance. F: constructor / property front doors. One evaluation = one "
     "response driven through get_wsgi_response + iterate + close, or one mutator call on a rebuilt Headers. "
     "non-trivial = distinct A case that is not (GET/POST, status with body, no Location, no callbacks), or a B "
-    "transition that carries a CR/LF value or changes the stored list."
+    "transition that carries a CR/LF value or changes the stored list. Round 2 adds: bodies of bytearray / memoryview "
+    "items, bodies assigned to .response / set_data / .data after construction, pre-operations make_sequence and "
+    "freeze, the wrapping dimension (get_wsgi_response, __call__, Response.from_app plain / buffered, force_type of a "
+    "WSGI app / of a Response); 46 more mutator forms (extend / update mixtures with Headers / dict / tuple / set / "
+    "kwargs, |= with a list, negative and stepped index forms, option keyword arguments with quoting, non-ASCII, "
+    "underscores and CR/LF in the option *name*, every removal form) and a non-str value whose text contains LF; 23 "
+    "more front doors. quick runs A as two complete sub-products (everything x no Location; Location x autocorrect x "
+    "body x status x method), thorough as the full product."
 )
 ASSUMPTIONS = [
     "the WSGI server calls close() on the returned iterable exactly once if it has one (PEP 3333), after consuming "
@@ -43,7 +50,12 @@ ASSUMPTIONS = [
     "'refused' = nothing containing CR/LF ends up stored and the only exception a mutator may raise is ValueError; "
     "a partial update (setlist(['ok', 'a\\nb']) keeps 'ok') is not a violation (statement silent on atomicity)",
     "header *names* are not in the statement and are never given CR/LF here",
-    "Response.freeze() is outside the quantifier (it drops a closable iterable without closing it)",
+    "Response.freeze() and assigning .response are treated as ways of giving a response its body (round 2); both "
+    "currently break a clause of the statement and are recorded as findings",
+    "a body item may be any bytes-like object (bytearray, memoryview) - the statement does not speak of item types",
+    "a status string without a numeric code ('Custom' -> '0 Custom') is outside the quantifier (1xx-5xx)",
+    "removal mutators (remove, del, pop, popitem, clear) may raise KeyError / IndexError exactly where the list is "
+    "empty or the key absent; their effect on the list is C08/C16's business",
 ]
 
 from werkzeug.datastructures import Headers, MultiDict, WWWAuthenticate  # noqa: E402
@@ -101,11 +113,22 @@ BODIES = {
     "closable-dp": lambda: ((lambda c: (c, c, True, b"abc"))(CloseIter([b"ab", b"c"]))),
     "fw-dp": lambda: ((lambda f: (FileWrapper(f, 2), f, True, b"abcde"))(CountFile(b"abcde"))),
     "fw": lambda: ((lambda f: (FileWrapper(f, 2), f, False, b"abcde"))(CountFile(b"abcde"))),
+    "list-bytearray": lambda: ([bytearray(b"ab"), bytearray(b""), bytearray(b"c")], None, False, b"abc"),
+    "list-memoryview": lambda: ([memoryview(b"ab"), memoryview(b""), memoryview(b"c")], None, False, b"abc"),
+    "gen-memoryview": lambda: (_gen([memoryview(b"ab"), bytearray(b"c")]), None, False, b"abc"),
+    "assigned-list": lambda: ("ASSIGN", ["ab", b"", "é"], False, "abé".encode()),
+    # not generated: assigning `.response` over a body for which set_data() already stored a Content-Length.
+    # The stale header is then an application-preset length, which the statement does not claim
+    # ("a Content-Length that werkzeug computes" for the body it was given).
+    "assigned-gen": lambda: ("ASSIGN", _gen([b"ab", "c"]), False, b"abc"),
+    "assigned-closable": lambda: ((lambda c: ("ASSIGN", c, False, b"abc"))(CloseIter([b"ab", b"c"]))),
+    "set_data-str": lambda: ("SETDATA", "néw", False, "néw".encode()),
+    "data-prop-bytes": lambda: ("DATAPROP", b"xyz1", False, b"xyz1"),
     "stream": lambda: ("STREAM", None, False, b"abc"),
     "stream-over-str": lambda: ("ab", None, False, b"abz"),
     "stream-over-closable": lambda: ((lambda c: (c, c, False, b"abcz"))(CloseIter([b"ab", b"c"]))),
 }
-QUICK_BODIES = [b for b in BODIES if b not in ("bytearray", "closable-str")]
+QUICK_BODIES = [b for b in BODIES if b not in ("bytearray", "closable-str", "gen-memoryview", "assigned-gen")]
 
 # (value handed to Response, intended code)
 STATUSES = [
@@ -120,22 +143,38 @@ N_QUICK_STATUS = 18
 METHODS = ["GET", "HEAD", "POST"]
 LOCATIONS = [None, "/rel", "http://h/abs", "/é x", "//other/p", "http://bücher.example/ü?q=ä b",
              "/docs#übersicht", "http://ü:ä@h/p;ö?k=v#第一章"]
-PREOPS = ["none", "get_data", "calc"]
+PREOPS = ["none", "get_data", "calc", "make_sequence", "freeze"]
+WRAPS = ["none", "call", "from_app", "from_app-buffered", "force_type-app", "force_type-response"]
 CONSUME = ["all", "nothing", "one"]
 ENV = {m: create_environ(method=m, base_url="http://localhost/app/") for m in METHODS}
 ASCII_URI = re.compile(r"[\x21-\x7e]+")
 
 
 def a_cases_for(bname, sti, tier):
+    """thorough: the full product. quick: two complete sub-products that share body x status x method -
+    (preset x callbacks x pre-op x consumption x wrapping) without Location, and (Location x autocorrect) with the
+    other dimensions at one callback / no pre-op / full consumption (get_wsgi_headers and get_app_iter do not share
+    state beyond status and method)."""
     locs = [(None, False)] + [(i, a) for i in range(1, len(LOCATIONS)) for a in (False, True)]
-    for method, preset, (loci, auto), ncb, preop, consume in itertools.product(
-            METHODS, (False, True), locs, (0, 1, 2), PREOPS, CONSUME):
-        yield (bname, sti, method, preset, loci, auto, ncb, preop, consume)
+    if tier == "thorough":
+        for method, preset, (loci, auto), ncb, preop, consume, wrap in itertools.product(
+                METHODS, (False, True), locs, (0, 1, 2), PREOPS, CONSUME, WRAPS):
+            yield (bname, sti, method, preset, loci, auto, ncb, preop, consume, wrap)
+        return
+    for method, preset, ncb, preop, consume, wrap in itertools.product(
+            METHODS, (False, True), (0, 1, 2), PREOPS, CONSUME, WRAPS):
+        yield (bname, sti, method, preset, None, False, ncb, preop, consume, wrap)
+    for method, (loci, auto), wrap in itertools.product(METHODS, locs[1:], ("none", "from_app")):
+        yield (bname, sti, method, False, loci, auto, 1, "none", "all", wrap)
+
+
+class SubResponse(Response):
+    pass
 
 
 def drive(case):
     """Run one case against the real code. Returns an observation dict (never raises for expected paths)."""
-    bname, sti, method, preset, loci, auto, ncb, preop, consume = case
+    bname, sti, method, preset, loci, auto, ncb, preop, consume, wrap = case
     body, tracker, dp, expected = BODIES[bname]()
     st, code = STATUSES[sti]
     kw = {} if st is None else {"status": st}
@@ -143,6 +182,22 @@ def drive(case):
         r = Response(**kw)
         r.stream.write(b"ab")
         r.stream.write(b"c")
+    elif body == "ASSIGN":          # body assigned to .response after construction
+        r = Response(**kw)
+        r.response = tracker
+        tracker = tracker if isinstance(tracker, CloseIter) else None
+    elif body == "ASSIGN-OVER":     # ... over a body that already produced a Content-Length
+        r = Response("x", **kw)
+        r.response = tracker
+        tracker = None
+    elif body == "SETDATA":
+        r = Response("old body", **kw)
+        r.set_data(tracker)
+        tracker = None
+    elif body == "DATAPROP":
+        r = Response(["old", "body"], **kw)
+        r.data = tracker
+        tracker = None
     else:
         r = Response(body, direct_passthrough=dp, **kw)
         if bname in ("stream-over-closable", "stream-over-str"):
@@ -152,15 +207,34 @@ def drive(case):
         r.headers["Location"] = LOCATIONS[loci]
     if preset:
         r.headers["Content-Length"] = str(len(expected))
+    env = ENV[method]
+    inner = r
+    if wrap in ("from_app", "from_app-buffered"):
+        r = Response.from_app(inner, env, buffered=wrap.endswith("buffered"))
+    elif wrap == "force_type-app":
+        r = SubResponse.force_type(lambda e, sr: inner(e, sr), env)
+    elif wrap == "force_type-response":
+        r = SubResponse.force_type(inner)
+    if r is not inner:
+        r.autocorrect_location_header = auto
     calls = [0] * ncb
     for i in range(ncb):
         r.call_on_close(lambda i=i: calls.__setitem__(i, calls[i] + 1))
-    if not dp:
+    if preop == "make_sequence":
+        r.make_sequence()
+    elif preop == "freeze":
+        r.freeze()
+    elif not r.direct_passthrough:
         if preop == "get_data":
             r.get_data()
         elif preop == "calc":
             r.calculate_content_length()
-    app_iter, status, headers = r.get_wsgi_response(ENV[method])
+    if wrap == "call":
+        got = {}
+        app_iter = r(env, lambda status, headers, exc_info=None: got.update(status=status, headers=headers))
+        status, headers = got.get("status"), got.get("headers")
+    else:
+        app_iter, status, headers = r.get_wsgi_response(env)
     if consume == "all":
         data = b"".join(app_iter)
     elif consume == "one":
@@ -180,7 +254,7 @@ def drive(case):
 
 def judge(case, ob):
     """-> list of problem names (empty = the statement holds on this case)."""
-    bname, sti, method, preset, loci, auto, ncb, preop, consume = case
+    bname, sti, method, preset, loci, auto, ncb, preop, consume, wrap = case
     bad = []
     status, headers, data, code = ob["status"], ob["headers"], ob["data"], ob["code"]
     if not (isinstance(status, str) and re.fullmatch(r"\d{3} [^\r\n]+", status) and int(status[:3]) == code):
@@ -194,7 +268,7 @@ def judge(case, ob):
     names = [k.lower() for k, _ in headers]
     H = {k.lower(): v for k, v in headers}
     nobody = method == "HEAD" or 100 <= code < 200 or code in (204, 304)
-    if isinstance(data, bytearray):
+    if isinstance(data, (bytearray, memoryview)):
         data = bytes(data)  # Response(bytearray) hands the bytearray on; the statement does not speak of item types
     if not isinstance(data, bytes):
         bad.append("body-not-bytes")
@@ -230,10 +304,10 @@ def judge(case, ob):
 
 
 def a_nontrivial(case):
-    bname, sti, method, preset, loci, auto, ncb, preop, consume = case
+    bname, sti, method, preset, loci, auto, ncb, preop, consume, wrap = case
     code = STATUSES[sti][1]
     return (method == "HEAD" or 100 <= code < 200 or code in (204, 304) or loci is not None or ncb > 0
-            or bname not in ("str", "bytes") or preop != "none" or consume != "all")
+            or bname not in ("str", "bytes") or preop != "none" or consume != "all" or wrap != "none")
 
 
 def run_a_unit(unit, R, tier):
@@ -254,7 +328,7 @@ def run_a_unit(unit, R, tier):
             R.nontrivial(case)
         nobody = case[2] == "HEAD" or 100 <= ob["code"] < 200 or ob["code"] in (204, 304)
         R.use("nobody:%s" % nobody, "preop:" + case[7], "consume:" + case[8], "ncb:%d" % case[6],
-              "loc:%s" % case[4], "has_close:%s" % ob["has_close"], "preset:%s" % case[3])
+              "loc:%s" % case[4], "has_close:%s" % ob["has_close"], "preset:%s" % case[3], "wrap:" + case[9])
         if "content-length" in {k.lower() for k, _ in ob["headers"]}:
             R.use("cl-present")
         else:
@@ -278,8 +352,16 @@ CLEAN_VALUES = ["v", "7", "ok", "attachment; filename=v", "attachment; filename=
 ITEMS = [(k, v) for k in KEYS for v in CLEAN_VALUES]
 ITEM_SET = set(ITEMS)
 # (label, value, is_bad)
+class StrObj:
+    """a value that is not a str; its text contains a line feed"""
+
+    def __str__(self):
+        return "a\nb"
+
+
 VALUES = [("clean", "v", False), ("int", 7, False), ("lf", "a\nb", True), ("cr", "a\rb", True),
-          ("crlf", "a\r\nX-Evil: y", True), ("trail", "v\n", True)]
+          ("crlf", "a\r\nX-Evil: y", True), ("trail", "v\n", True), ("lone-lf", "\n", True),
+          ("lead-crlf", "\r\nX: y", True), ("obj-lf", StrObj(), True)]
 
 
 def _has_key(h, k):
@@ -329,7 +411,94 @@ MUTATORS = {
     "set-option-kwarg": (lambda h, k, v: h.set(k, "attachment", filename=v), None),
     "add_header-option-kwarg": (lambda h, k, v: h.add_header(k, "attachment", filename=v), None),
 }
-OPTION_OPS = {"add-option-kwarg", "set-option-kwarg", "add_header-option-kwarg"}
+def _slice_step(h, k, v):
+    n = len(h._list[::2])
+    h[::2] = [(k, v)] * n
+
+
+MUTATORS.update({
+    # extend / update mixtures (positional argument plus keyword arguments, every container form)
+    "extend-headers+kwargs": (lambda h, k, v: h.extend(Headers([(k, "ok")]), **{k: v}), None),
+    "extend-list+kwargs": (lambda h, k, v: h.extend([(k, "ok")], **{"X-B": v}), None),
+    "extend-dict-tuple": (lambda h, k, v: h.extend({k: ("ok", v)}), None),
+    "extend-dict-set": (lambda h, k, v: h.extend({k: {v}}), None),
+    "extend-kwargs-list": (lambda h, k, v: h.extend(**{k: ["ok", v]}), None),
+    "extend-headers-only": (lambda h, k, v: h.extend(Headers({k: [v]})), None),
+    "update-headers+kwargs": (lambda h, k, v: h.update(Headers([(k, "ok")]), **{k: v}), None),
+    "update-dict-tuple": (lambda h, k, v: h.update({k: ("ok", v)}), None),
+    "update-dict-set": (lambda h, k, v: h.update({k: {v}}), None),
+    "update-kwargs-list": (lambda h, k, v: h.update(**{k: ["ok", v]}), None),
+    "update-list+kwargs": (lambda h, k, v: h.update([(k, "ok")], **{"X-B": v}), None),
+    "ior-list": (lambda h, k, v: h.__ior__([(k, v)]), None),
+    "ior-dict-list": (lambda h, k, v: h.__ior__({k: ["ok", v]}), None),
+    "or-dict-list": (lambda h, k, v: h | {k: [v]}, None),
+    # index forms
+    "setitem-int-neg-first": (lambda h, k, v: h.__setitem__(-len(h), (k, v)), lambda h: len(h) >= 1),
+    "setitem-int-last-pos": (lambda h, k, v: h.__setitem__(len(h) - 1, (k, v)), lambda h: len(h) >= 1),
+    "setitem-slice-all": (lambda h, k, v: h.__setitem__(slice(None), [(k, v)]), None),
+    "setitem-slice-neg": (lambda h, k, v: h.__setitem__(slice(-1, None), [(k, "ok"), (k, v)]), None),
+    "setitem-slice-step": (_slice_step, lambda h: len(h) >= 1),
+    "setitem-slice-generator": (lambda h, k, v: h.__setitem__(slice(0, 0), ((kk, vv) for kk, vv in [(k, v)])), None),
+    # option keyword arguments: every mutator that takes **kwargs, several option shapes
+    "add-option-underscore": (lambda h, k, v: h.add(k, "attachment", file_name=v), None),
+    "add-option-two": (lambda h, k, v: h.add(k, "attachment", name="ok", filename=v), None),
+    "add-option-quoted": (lambda h, k, v: h.add(k, "attachment", filename=_q(v)), None),
+    "add-option-nonascii": (lambda h, k, v: h.add(k, "attachment", filename=_na(v)), None),
+    "set-option-quoted": (lambda h, k, v: h.set(k, "attachment", filename=_q(v)), None),
+    "add-option-value-is-bad": (lambda h, k, v: h.add(k, str(v), filename="ok"), None),
+    "set-option-value-is-bad": (lambda h, k, v: h.set(k, str(v), filename="ok"), None),
+    "add-option-key-lf": (lambda h, k, v: h.add(k, "attachment", **{"x\ny": v}), None),
+    "set-option-key-lf": (lambda h, k, v: h.set(k, "attachment", **{"x\ry": v}), None),
+    # removal (cannot store anything; the stored list must stay a clean list, only Key/IndexError may be raised)
+    "remove": (lambda h, k, v: h.remove(k), None),
+    "delitem-str": (lambda h, k, v: h.__delitem__(k.lower()), None),
+    "delitem-int": (lambda h, k, v: h.__delitem__(0), None),
+    "delitem-int-neg": (lambda h, k, v: h.__delitem__(-1), None),
+    "delitem-slice": (lambda h, k, v: h.__delitem__(slice(0, 1)), None),
+    "delitem-slice-neg": (lambda h, k, v: h.__delitem__(slice(-1, None)), None),
+    "delitem-slice-all": (lambda h, k, v: h.__delitem__(slice(None)), None),
+    "pop-none": (lambda h, k, v: h.pop(), None),
+    "pop-int": (lambda h, k, v: h.pop(0), None),
+    "pop-int-neg": (lambda h, k, v: h.pop(-1), None),
+    "pop-str": (lambda h, k, v: h.pop(k), None),
+    "pop-str-default": (lambda h, k, v: h.pop(k.lower(), "d"), None),
+    "popitem": (lambda h, k, v: h.popitem(), None),
+    "clear": (lambda h, k, v: h.clear(), None),
+    "setlist-empty": (lambda h, k, v: h.setlist(k, []), None),
+})
+
+
+def _q(v):
+    return ("a b\"c" + v) if isinstance(v, str) else v
+
+
+def _na(v):
+    return ("é" + v) if isinstance(v, str) else v
+
+
+REMOVERS = {"remove", "delitem-str", "delitem-int", "delitem-int-neg", "delitem-slice", "delitem-slice-neg",
+            "delitem-slice-all", "pop-none", "pop-int", "pop-int-neg", "pop-str", "pop-str-default", "popitem", "clear",
+            "setlist-empty"}
+# the header text contains CR/LF whatever the value is
+ALWAYS_BAD = {"add-option-key-lf", "set-option-key-lf"}
+OPTION_OPS = {"add-option-kwarg", "set-option-kwarg", "add_header-option-kwarg", "add-option-underscore",
+              "add-option-two", "add-option-quoted", "add-option-nonascii", "set-option-quoted",
+              "add-option-key-lf", "set-option-key-lf"}
+
+
+# mutators whose *clean* result is a new header text outside the enumerated item universe (option encodings);
+# they are applied to every state but their results are not used as further start states
+OPEN_OPS = {"add-option-underscore", "add-option-two", "add-option-quoted", "add-option-nonascii",
+            "set-option-quoted", "add-option-value-is-bad", "set-option-value-is-bad"}
+
+
+def remover_may_raise(state, opname, k):
+    """-> exception name the removal may raise on this state, or None"""
+    if opname in ("delitem-int", "delitem-int-neg", "pop-none", "pop-int", "pop-int-neg", "popitem"):
+        return "IndexError" if not state else None
+    if opname == "pop-str":
+        return None if any(kk.lower() == k.lower() for kk, _ in state) else "KeyError"
+    return None
 
 
 def b_states(bound):
@@ -357,6 +526,7 @@ def b_transition(state, opname, k, vi):
     """-> (problem | None, raised exception name | None, new state tuple, extra object state or None)"""
     fn, _en = MUTATORS[opname]
     _label, v, is_bad = VALUES[vi]
+    is_bad = is_bad or opname in ALWAYS_BAD
     h = build_headers(state)
     extra = None
     raised = None
@@ -364,10 +534,17 @@ def b_transition(state, opname, k, vi):
         extra = fn(h, k, v)
     except ValueError:
         raised = "ValueError"
+    except (KeyError, IndexError) as e:
+        raised = "KeyError" if isinstance(e, KeyError) else "IndexError"
     except Exception as e:  # noqa: BLE001
         raised = type(e).__name__
     problem = None
-    if raised is not None and raised != "ValueError":
+    if opname in REMOVERS:
+        is_bad = False
+        if raised != remover_may_raise(state, opname, k):
+            problem = "removal-exception:%s" % raised
+        raised = None if problem is None else raised
+    elif raised is not None and raised != "ValueError":
         problem = "unexpected-exception:" + raised
     elif raised == "ValueError" and not is_bad:
         problem = "clean-value-refused"
@@ -392,11 +569,11 @@ def run_b_unit(unit, R, tier):
             if enabled is not None and not enabled(h0):
                 continue
             for k in KEYS:
-                for vi in range(len(VALUES)):
+                for vi in (range(len(VALUES)) if opname not in REMOVERS else (0,)):
                     R.ev()
                     R.count("transitions")
                     problem, raised, new, extra = b_transition(state, opname, k, vi)
-                    is_bad = VALUES[vi][2]
+                    is_bad = (VALUES[vi][2] or opname in ALWAYS_BAD) and opname not in REMOVERS
                     R.use("op:" + opname, "val:" + VALUES[vi][0])
                     if raised:
                         R.use("raised:" + opname)
@@ -408,7 +585,8 @@ def run_b_unit(unit, R, tier):
                     if is_bad and raised is None:
                         R.use("bad-not-raised:" + opname)   # legitimate only where nothing had to be stored
                     # closure: whatever is stored now is again a state of the enumerated space (or beyond the bound)
-                    if problem is None and len(new) <= bound and not set(new) <= ITEM_SET:
+                    if problem is None and len(new) <= bound and not set(new) <= ITEM_SET \
+                            and opname not in OPEN_OPS:
                         if not set((kk.upper(), vv) for kk, vv in new) <= set((a.upper(), b) for a, b in ITEM_SET):
                             R.use("unclosed:%s" % (sorted(set(new) - ITEM_SET)[:1],))
                     if problem:
@@ -465,6 +643,65 @@ FRONT_DOORS = {
     "headers-location-iri": lambda v: _call(Response("x", status=302), lambda r: r.headers.set("Location", "/é" + v)),
     "headers-content-location-iri": lambda v: _call(Response("x"), lambda r: r.headers.set("Content-Location", "/é" + v)),
 }
+def _shared_headers(v):
+    hh = Headers([("X-A", "ok")])
+    r = Response("x", headers=hh)   # a Headers instance is adopted, not copied
+    hh.add("X-B", v)
+    return r
+
+
+def _wa_list(r, v):
+    r.www_authenticate = [WWWAuthenticate("basic", {"realm": "ok"}), WWWAuthenticate("bearer", {"realm": v})]
+
+
+def _wa_token(r, v):
+    r.www_authenticate = WWWAuthenticate("bearer", token=v)
+
+
+def _wa_live(r, v):
+    r.www_authenticate = WWWAuthenticate("basic", {"realm": "ok"})
+    r.www_authenticate.realm = v
+
+
+def _cr_units(r, v):
+    r.content_range.set(0, 1, 2, units=v)
+
+
+def _mt_params(r, v):
+    r.mimetype_params["x"] = v
+
+
+def _cspro(r, v):
+    r.content_security_policy_report_only.script_src = v
+
+
+FRONT_DOORS.update({
+    "ctor-headers-shared-Headers": lambda v: _shared_headers(v),
+    "ctor-headers-tuple-pairs": lambda v: Response("x", headers=(("X-A", "ok"), ("X-B", v))),
+    "prop-vary-str": lambda v: _setattr(Response("x"), "vary", v),
+    "prop-vary-list": lambda v: _setattr(Response("x"), "vary", ["ok", v]),
+    "prop-allow-list": lambda v: _setattr(Response("x"), "allow", [v]),
+    "prop-content_language-list": lambda v: _setattr(Response("x"), "content_language", ["en", v]),
+    "prop-access_control_allow_headers": lambda v: _setattr(Response("x"), "access_control_allow_headers", [v]),
+    "prop-access_control_allow_methods": lambda v: _setattr(Response("x"), "access_control_allow_methods", ["GET", v]),
+    "prop-access_control_expose_headers": lambda v: _setattr(Response("x"), "access_control_expose_headers", [v]),
+    "www_authenticate-list": lambda v: _call(Response("x", status=401), lambda r: _wa_list(r, v)),
+    "www_authenticate-token": lambda v: _call(Response("x", status=401), lambda r: _wa_token(r, v)),
+    "www_authenticate-live-update": lambda v: _call(Response("x", status=401), lambda r: _wa_live(r, v)),
+    "content_range-units": lambda v: _call(Response("x", status=206), lambda r: _cr_units(r, v)),
+    "mimetype_params": lambda v: _call(Response("x"), lambda r: _mt_params(r, v)),
+    "csp-report-only": lambda v: _call(Response("x"), lambda r: _cspro(r, v)),
+    "set_etag-weak": lambda v: _call(Response("x"), lambda r: r.set_etag(v, weak=True)),
+    "delete_cookie-path": lambda v: _call(Response("x"), lambda r: r.delete_cookie("k", path=v)),
+    "delete_cookie-domain": lambda v: _call(Response("x"), lambda r: r.delete_cookie("k", domain=v)),
+    "set_cookie-key": lambda v: _call(Response("x"), lambda r: r.set_cookie("k" + v, "x")),
+    "headers-add-option": lambda v: _call(Response("x"), lambda r: r.headers.add("Content-Disposition", "attachment", filename=v)),
+    "headers-extend-kwargs": lambda v: _call(Response("x"), lambda r: r.headers.extend(X_A=v)),
+    "headers-update-kwargs": lambda v: _call(Response("x"), lambda r: r.headers.update(X_A=["ok", v])),
+    "from_app-headers": lambda v: Response.from_app(
+        lambda e, sr: (sr("200 OK", [("Content-Type", "text/plain"), ("X-A", v)]), [b"x"])[1], ENV["GET"]),
+})
+
 F_VALUES = ["v", "a\nb", "a\rb", "a\r\nSet-Cookie: x=y", "v\n", "\nv", "a\x0bb", "a b", "a\x85b"]
 F_BAD = [("\r" in v or "\n" in v) for v in F_VALUES]
 
@@ -565,11 +802,12 @@ def finalize(R, tier):
     need |= {"nobody:True", "nobody:False", "cl-present", "cl-absent", "has_close:True", "has_close:False",
              "preset:True", "preset:False"}
     need |= {"preop:" + p for p in PREOPS} | {"consume:" + c for c in CONSUME} | {"ncb:0", "ncb:1", "ncb:2"}
+    need |= {"wrap:" + w for w in WRAPS}
     need |= {"loc:%s" % i for i in [None] + list(range(1, len(LOCATIONS)))}
     need |= {"op:" + o for o in MUTATORS} | {"val:" + v[0] for v in VALUES}
-    need |= {"ok:" + o for o in MUTATORS}
+    need |= {"ok:" + o for o in MUTATORS if o not in ALWAYS_BAD}
     # every mutator must have refused a CR/LF value at least once
-    need |= {"raised:" + o for o in MUTATORS}
+    need |= {"raised:" + o for o in MUTATORS if o not in REMOVERS}
     need |= {"door:" + d for d in FRONT_DOORS}
     missing = need - R.used
     if missing:
@@ -606,8 +844,8 @@ def replay(rec):
         except Exception as e:  # noqa: BLE001
             return True, f"case {case}: exception {e!r}"
         bad = judge(case, ob)
-        bname, sti, method, preset, loci, auto, ncb, preop, consume = case
-        text = (f"Response(<{bname}>, status={STATUSES[sti][0]!r}, direct_passthrough={ob['dp']}), "
+        bname, sti, method, preset, loci, auto, ncb, preop, consume, wrap = case
+        text = (f"[{wrap}] Response(<{bname}>, status={STATUSES[sti][0]!r}, direct_passthrough={ob['dp']}), "
                 f"Location={LOCATIONS[loci] if loci is not None else None!r} autocorrect={auto} "
                 f"preset Content-Length={preset}, {ncb} call_on_close callbacks, pre-op={preop}\n"
                 f"{method}: status={ob['status']!r} headers={ob['headers']}\n"
@@ -637,7 +875,28 @@ def _dp_callbacks(rec):
                 and all(c == 0 for c in rec["calls"]))
 
 
-FINDINGS = {"C05-passthrough-skips-close-callbacks": _dp_callbacks}
+def _freeze_drops_close(rec):
+    """freeze() replaced a closable body by a list without keeping its close(): it is never closed."""
+    if rec.get("kind") != "A" or rec.get("what") not in ("iterable-close-count", "file-close-count"):
+        return False
+    if rec["case"][7] != "freeze":
+        return False
+    n = rec.get("iter_closed") if rec["what"] == "iterable-close-count" else rec.get("file_closed")
+    return n == 0
+
+
+def _stale_cl_after_assignment(rec):
+    """Response('x') computed Content-Length: 1; .response was then assigned a different sequence."""
+    if rec.get("kind") != "A" or rec.get("what") != "content-length-mismatch":
+        return False
+    if rec["case"][0] != "assigned-tuple-over-str" or rec["case"][3]:
+        return False
+    cl = [v for k, v in rec["headers"] if k.lower() == "content-length"]
+    return cl == ["1"] and rec.get("data") == b"abcd"
+
+
+FINDINGS = {"C05-passthrough-skips-close-callbacks": _dp_callbacks,
+            "C05-freeze-drops-iterable-close": _freeze_drops_close}
 
 LEVEL_TEXT = (
     "Bounded exhaustive exploration of Response.get_wsgi_response and of every Headers mutator: the complete product "
